@@ -289,6 +289,9 @@ type RigOpt struct {
 	// ConcurrentReg: the interfaces are registered from goroutines released at the same instant (before serving); the
 	// order in which GetInfo then lists them is whatever it is, but every one of them is listed once and routable
 	ConcurrentReg bool
+	// noLate: every interface is registered before Bind (set internally when the tree under test refuses a registration
+	// between Bind and DoListen, which the statement "registering while listening is refused" permits)
+	noLate bool
 }
 
 type Rig struct {
@@ -383,22 +386,35 @@ func newRig(r *fw.Run, o RigOpt) (*Rig, error) {
 			}
 		}
 	}
-	for _, n := range o.Ifaces {
-		if o.ConcurrentReg {
-			break
-		}
+	n := atomic.AddInt64(&rigCounter, 1)
+	// Every other Bind + DoListen rig registers the second half of its interfaces between Bind and DoListen: accepted
+	// registrations must be listed and routable whenever they were made (seeded change C04-O: a lookup table frozen at Bind).
+	var late []string
+	early := o.Ifaces
+	if !o.UseListen && !o.ConcurrentReg && !o.noLate && n%2 == 0 && len(o.Ifaces) > 0 {
+		early, late = o.Ifaces[:len(o.Ifaces)/2], o.Ifaces[len(o.Ifaces)/2:]
+	}
+	register := func(n string) error {
 		desc := defaultDesc(n)
 		if d, ok := o.Descs[n]; ok {
 			desc = d
 		}
 		if err := svc.RegisterInterface(&ScriptDisp{Name: n, Desc: desc, Log: g.Log, Hook: g.hook}); err != nil {
-			return nil, fmt.Errorf("register %q: %v", n, err)
+			return err
 		}
 		g.Reg.Names = append(g.Reg.Names, n)
 		g.Reg.Descs[n] = desc
 		g.Reg.Scripted[n] = true
+		return nil
 	}
-	n := atomic.AddInt64(&rigCounter, 1)
+	for _, n := range early {
+		if o.ConcurrentReg {
+			break
+		}
+		if err := register(n); err != nil {
+			return nil, fmt.Errorf("register %q: %v", n, err)
+		}
+	}
 	switch o.Transport {
 	case "tcp":
 		g.Addr = "tcp:127.0.0.1:0"
@@ -418,6 +434,17 @@ func newRig(r *fw.Run, o RigOpt) (*Rig, error) {
 	} else {
 		if err := svc.Bind(g.ctx, g.Addr); err != nil {
 			return nil, fmt.Errorf("bind %s: %v", g.Addr, err)
+		}
+		for _, n := range late {
+			if err := register(n); err != nil {
+				// refused between Bind and DoListen: legitimate; start over with everything registered first
+				svc.Shutdown()
+				g.cancel()
+				o.noLate = true
+				r.Count("registrations_refused_between_bind_and_serve", 1)
+				return newRig(r, o)
+			}
+			r.Count("registrations_between_bind_and_serve", 1)
 		}
 		go func() { g.done <- svc.DoListen(g.ctx, o.Timeout) }()
 	}
